@@ -366,6 +366,7 @@ def run(ck):
     ck.run_cases("rw", cases, chunk=1)
     ck.run_cases("hmc", hmc_cases(ck), chunk=1)
     ck.run_cases("ens", ens_cases(ck), chunk=1)
+    ck.run_cases("l1hist", l1hist_cases(ck), chunk=2)
     # each chain run under parallel tempering: the exchange move itself (shared with C08's exchange evaluator)
     ck.run_cases("exchange", [dict(chains=k, N=N, seed=1 + ck.seed, presteps=pre, ladder=lad)
                               for k, N, pre, lad in (("GibbsChain", 2, 0, "sorted"), ("GibbsChain", 3, 1, "unsorted"), ("HamiltonianChain", 2, 1, "unsorted"),
@@ -769,3 +770,131 @@ def ev_exchange(case):
 
 
 EVALUATORS["exchange"] = ev_exchange
+
+
+# --------------------------------------------------------------------------- attempt-level oracle after a real history
+def smooth_post(t):
+    t = np.asarray(t, dtype=float)
+    return float(-0.5 * ((t - 0.2) ** 2 / np.array([1.0, 0.3, 2.0])[: t.size]).sum() - 0.05 * (t ** 4).sum() - 0.3 * t[0] * t[-1])
+
+
+def ev_l1hist(case):
+    """Continuous target; the chain first lives W real steps under a seeded generator with the adaptation intervals shrunk
+    (so proposal widths have been adapted, try-count halvings have happened and PCA directions have been re-estimated),
+    then ONE step is explored over every outcome of the scripted stream within the deviation bound.  Oracle (L1): every
+    accept/reject decision is taken with the Metropolis-Hastings probability of the move from the point that is current at
+    that moment, and what is recorded is the point the decisions lead to - whatever the history did to the proposal."""
+    from inference.mcmc import GibbsChain, PcaChain
+    from inference.mcmc.gibbs import MetropolisChain
+
+    kind, d, T, W, limits = case["sampler"], case["d"], case["T"], case["warm"], case["limits"]
+    name = f"{kind}/{limits or 'free'}"
+    fails, fkeys, tags = [], set(), set()
+    nexec = ntrans = 0
+    lo, hi = np.array([-1.5, -1.0, -2.0])[:d], np.array([1.8, 1.4, 2.2])[:d]
+
+    def add_fail(key, what, **kw):
+        if key not in fkeys:
+            fkeys.add(key)
+            fails.append(fail(key, what, config=case, **kw))
+
+    def body(ctx):
+        post = EvalLog(smooth_post, ctx)
+        start = np.array([0.4, -0.3, 0.6])[:d]
+        with lib("construct"):
+            if kind == "PcaChain":
+                ch = PcaChain(posterior=post, start=start, widths=np.full(d, 0.9), temperature=T, bounds=(lo.copy(), hi.copy()) if limits == "box" else None, display_progress=False)
+                ch.dir_update_interval = 4
+                ch.next_update = 4
+            else:
+                cls = GibbsChain if kind == "GibbsChain" else MetropolisChain
+                ch = cls(posterior=post, start=start, widths=np.full(d, 0.9), temperature=T, display_progress=False)
+                if limits == "box":
+                    for i in range(d):
+                        ch.set_boundaries(i, (float(lo[i]), float(hi[i])))
+            for p in ch.params:
+                p.chk_int = 3
+                p.max_tries = case.get("max_tries", 50)
+        ch.rng = np.random.default_rng(case["seed"])
+        for i, p in enumerate(ch.params):
+            p.rng = np.random.default_rng(100 * case["seed"] + i)
+        with lib("warm-up"):
+            for _ in range(W):
+                ch.take_step()
+        cur = ch.get_last().copy()
+        info = {"cur": cur, "p": float(ch.probs[-1]), "sigmas": [float(p.sigma) for p in ch.params],
+                "adapted": any(len(p.sigma_values) > 1 for p in ch.params), "dir_updates": len(getattr(ch, "update_history", []))}
+        set_rng(ch, ScriptedGenerator(ctx, normal=[-1.0, 1.0, -2.5, 2.5], normal_w=[0.35, 0.35, 0.15, 0.15]))
+        post.arm(case.get("maxeval", 5))
+        with lib("take_step"):
+            ch.take_step()
+        info["recorded"] = tuple(float(v) for v in ch.get_last())
+        info["prob"] = float(ch.probs[-1])
+        return info
+
+    first = {}
+    for ctx, res in explore(body, bound=case["bound"], max_exec=50000):
+        nexec += 1
+        att = attempts_of(ctx.obs)
+        ntrans += len(att)
+        if res is None and not att:
+            continue
+        if res is not None:
+            first = res
+        # the starting point and its stored probability are the same in every execution of this case
+        if not first:
+            continue
+        cur_pt = tuple(first["cur"])
+        cur_p = smooth_post(np.array(cur_pt)) / T
+        if abs(cur_p - first["p"]) > 1e-10 * (1 + abs(cur_p)):
+            add_fail(f"l1hist/{name}/stored-probability-of-current-point-wrong-after-history", f"{first['p']!r} vs {cur_p!r}")
+        ok = True
+        for ai, (pt, val, cmp, normals) in enumerate(att):
+            last_unfinished = ctx.cut and ai == len(att) - 1 and cmp is None
+            p_new = val / T
+            m = mh_prob(p_new, cur_p)
+            if cmp is not None:
+                used = min(max(cmp[3], 0.0), 1.0)
+                if abs(used - m) > 1e-12:
+                    add_fail(f"l1hist/{name}/threshold-not-MH-probability-after-history",
+                             f"after {W} steps: from {cur_pt} to {pt}: uniform compared with {cmp[3]!r}, MH probability {m!r} (T={T})", choices=ctx.choices)
+                    ok = False
+                acc = cmp[5]
+            elif last_unfinished:
+                acc = None
+            else:
+                if not (m >= 1 - 1e-12 or m <= 0.0):
+                    add_fail(f"l1hist/{name}/decision-without-uniform-after-history", f"MH probability {m!r}", choices=ctx.choices)
+                    ok = False
+                acc = m >= 1 - 1e-12
+            if limits == "box" and (np.any(np.array(pt) < lo - 1e-12) or np.any(np.array(pt) > hi + 1e-12)):
+                add_fail(f"l1hist/{name}/proposal-outside-bounds-after-history", f"{pt}", choices=ctx.choices)
+            if acc:
+                cur_p, cur_pt = p_new, pt
+        if res is not None and ok:
+            if not np.allclose(res["recorded"], cur_pt, atol=1e-12):
+                add_fail(f"l1hist/{name}/recorded-point-is-not-the-accepted-proposal-after-history", f"{res['recorded']} vs {cur_pt}", choices=ctx.choices)
+            elif abs(res["prob"] - smooth_post(np.array(res["recorded"])) / T) > 1e-10 * (1 + abs(res["prob"])):
+                add_fail(f"l1hist/{name}/recorded-probability-wrong-after-history", f"{res['prob']!r}", choices=ctx.choices)
+        if res is not None:
+            tags.add(f"l1hist:{name}:W={W}:adapted={res['adapted']}:dir_updates={min(res['dir_updates'], 2)}:T={T}")
+    return {"fails": fails, "n": nexec, "states": 1, "transitions": ntrans, "tags": tags, "sample": {"config": case, "after_history": {k: v for k, v in first.items() if k in ("sigmas", "adapted", "dir_updates")}}}
+
+
+EVALUATORS["l1hist"] = ev_l1hist
+
+
+def l1hist_cases(ck):
+    out = []
+    for kind in ("MetropolisChain", "GibbsChain", "PcaChain"):
+        for d in (1, 2, 3):
+            for T in (1.0, 2.5):
+                for limits in (None, "box"):
+                    for W in ((0, 7, 30) if ck.quick else (0, 3, 7, 12, 30, 60)):
+                        if ck.quick and d == 3 and limits == "box":
+                            continue
+                        out.append(dict(sampler=kind, d=d, T=T, warm=W, limits=limits, seed=3 + ck.seed + W, bound=2 if ck.quick else 3))
+    # try-count halving of the proposal width inside the explored step itself
+    for kind in ("GibbsChain", "MetropolisChain"):
+        out.append(dict(sampler=kind, d=1, T=1.0, warm=5, limits=None, seed=11 + ck.seed, bound=3, max_tries=1, maxeval=6))
+    return out
